@@ -1239,3 +1239,344 @@ Proof.
   intros fuel f0 buf ty id f l Hf E. pose proof (read_field_good true fuel f0 buf ty id Hf) as H.
   rewrite E in H. exact H.
 Qed.
+
+(* ====================================================================================== *)
+(* every tree ConvertUnknownFields returns is canonical and as long as the bytes it came from *)
+(* ====================================================================================== *)
+Lemma wf_drop n (l : bytes) : wf l -> wf (drop n l).
+Proof.
+  unfold drop, wf. generalize (N.to_nat n) as k. intros k. revert l.
+  induction k as [|k IH]; intros l H; cbn [skipn]; [exact H|].
+  destruct l as [|x xs]; [constructor|]. apply IH. now inversion H.
+Qed.
+Lemma wf_take n (l : bytes) : wf l -> wf (take n l).
+Proof.
+  unfold take, wf. generalize (N.to_nat n) as k. intros k. revert l.
+  induction k as [|k IH]; intros l H; cbn [firstn]; [constructor|].
+  destruct l as [|x xs]; [constructor|]. inversion H; subst. constructor; [assumption|now apply IH].
+Qed.
+Lemma wf_nth0 (l : bytes) : wf l -> nth 0 l 0 < 256.
+Proof. intros H. destruct l as [|x xs]; cbn [nth]; [lia|]. now inversion H. Qed.
+Lemma wf_nth1 (l : bytes) : wf l -> nth 1 l 0 < 256.
+Proof. intros H. destruct l as [|x [|y ys]]; cbn [nth]; try lia. inversion H as [|? ? _ H2]; subst. now inversion H2. Qed.
+
+Lemma i8_range u : u < 256 -> in_signedb 8 (i8 u) = true.
+Proof. intros H. apply in_signedb_spec. apply to_signed_range; [lia|]. now rewrite p8. Qed.
+Lemma i16_range u : u < 65536 -> in_signedb 16 (i16 u) = true.
+Proof. intros H. apply in_signedb_spec. apply to_signed_range; [lia|]. now rewrite p16. Qed.
+Lemma i32_range u : u < 4294967296 -> in_signedb 32 (i32 u) = true.
+Proof. intros H. apply in_signedb_spec. apply to_signed_range; [lia|]. now rewrite p32. Qed.
+Lemma i64_range u : u < 18446744073709551616 -> in_signedb 64 (i64 u) = true.
+Proof. intros H. apply in_signedb_spec. apply to_signed_range; [lia|]. now rewrite p64. Qed.
+
+Lemma unbe_take_lt k (buf : bytes) : wf buf -> k <= len buf -> unbe (take k buf) < 256 ^ k.
+Proof.
+  intros H Hk. pose proof (unbe_lt (take k buf) (wf_take k buf H)) as Hlt.
+  now rewrite take_len in Hlt by assumption.
+Qed.
+
+Ltac need_inv buf k e E :=
+  let Hn := fresh "Hn" in let Hl := fresh "Hl" in
+  destruct (need_cases buf k e) as [[Hn Hl]|[Hn Hl]]; rewrite Hn in E; cbn [bind] in E; [|discriminate].
+
+Lemma r_bool_inv buf v l : r_bool buf = Ok (v, l) -> l = 1.
+Proof. unfold r_bool. intros E. need_inv buf 1 e_read_bool E. now inversion E. Qed.
+Lemma r_byte_inv buf v l : wf buf -> r_byte buf = Ok (v, l) -> l = 1 /\ in_signedb 8 v = true.
+Proof.
+  unfold r_byte. intros W E. need_inv buf 1 e_read_byte E. inversion E; subst.
+  split; [reflexivity|]. apply i8_range, wf_nth0, W.
+Qed.
+Lemma r_i16_inv buf v l : wf buf -> r_i16 buf = Ok (v, l) -> l = 2 /\ in_signedb 16 v = true.
+Proof.
+  unfold r_i16. intros W E. need_inv buf 2 e_read_i16 E. inversion E; subst.
+  split; [reflexivity|]. apply i16_range. rewrite <- p256_2. now apply unbe_take_lt.
+Qed.
+Lemma r_i32_inv buf v l : wf buf -> r_i32 buf = Ok (v, l) -> l = 4 /\ in_signedb 32 v = true /\ 4 <= len buf.
+Proof.
+  unfold r_i32. intros W E. need_inv buf 4 e_read_i32 E. inversion E; subst.
+  split; [reflexivity|]. split; [|assumption]. apply i32_range. rewrite <- p256_4. now apply unbe_take_lt.
+Qed.
+Lemma r_i64_inv buf v l : wf buf -> r_i64 buf = Ok (v, l) -> l = 8 /\ in_signedb 64 v = true.
+Proof.
+  unfold r_i64. intros W E. need_inv buf 8 e_read_i64 E. inversion E; subst.
+  split; [reflexivity|]. apply i64_range. rewrite <- p256_8. now apply unbe_take_lt.
+Qed.
+Lemma r_double_inv buf v l : wf buf -> r_double buf = Ok (v, l) -> l = 8 /\ (v <? two64) = true.
+Proof.
+  unfold r_double. intros W E. need_inv buf 8 e_read_double E. inversion E; subst.
+  split; [reflexivity|]. pose proof (unbe_take_lt 8 buf W Hl) as H. rewrite p256_8 in H. unfold two64. lia.
+Qed.
+Lemma r_string_inv buf s l : wf buf -> r_string buf = Ok (s, l) ->
+  l = 4 + len s /\ ((len s <? two31) && wfbb s)%bool = true.
+Proof.
+  unfold r_string, r_binary_gen. intros W E.
+  destruct (r_i32 buf) as [[sz l0]|e|w|] eqn:E32; try discriminate.
+  destruct (r_i32_inv buf sz l0 W E32) as (-> & Hr & Hl4).
+  destruct (Z.ltb_spec sz 0) as [|Hnn]; [discriminate|].
+  destruct (N.ltb_spec (len buf) (4 + Z.to_N sz)) as [|Hfit]; [discriminate|].
+  inversion E; subst. clear E.
+  assert (Hls : len (take (Z.to_N sz) (drop 4 buf)) = Z.to_N sz).
+  { apply take_len. rewrite drop_len by lia. lia. }
+  rewrite Hls. split; [reflexivity|].
+  apply andb_true_iff. split.
+  - apply in_signedb_spec in Hr. unfold in_signed in Hr. change (2 ^ (32 - 1)) with 2147483648 in Hr.
+    unfold two31. lia.
+  - apply wfbb_wf. apply wf_take, wf_drop, W.
+Qed.
+Lemma r_field_begin_inv buf t id l : wf buf -> r_field_begin buf = Ok (t, id, l) ->
+  (t = thrift_STOP /\ l = 1) \/ (t <> thrift_STOP /\ l = 3 /\ in_signedb 8 t = true /\ in_signedb 16 id = true).
+Proof.
+  unfold r_field_begin. intros W E. need_inv buf 1 e_read_field E.
+  destruct (Z.eqb_spec (i8 (nth 0 buf 0)) thrift_STOP) as [Es|Ens].
+  - inversion E; subst. left. auto.
+  - need_inv buf 3 e_read_field E. inversion E; subst. right. repeat split; auto.
+    + apply i8_range, wf_nth0, W.
+    + apply i16_range. rewrite <- p256_2. apply unbe_take_lt; [now apply wf_drop|]. rewrite drop_len; lia.
+Qed.
+Lemma r_list_begin_gen_inv e buf et size l : wf buf -> r_list_begin_gen e buf = Ok (et, size, l) ->
+  l = 5 /\ in_signedb 8 et = true /\ (0 <= size < 4294967296)%Z /\ 5 <= len buf.
+Proof.
+  unfold r_list_begin_gen. intros W E. need_inv buf 5 e E. inversion E; subst.
+  split; [reflexivity|]. split; [apply i8_range, wf_nth0, W|]. split; [|assumption].
+  pose proof (unbe_take_lt 4 (drop 1 buf) (wf_drop 1 buf W)) as H. rewrite p256_4 in H.
+  rewrite drop_len in H by lia. lia.
+Qed.
+Lemma r_map_begin_inv buf kt vt size l : wf buf -> r_map_begin buf = Ok (kt, vt, size, l) ->
+  l = 6 /\ in_signedb 8 kt = true /\ in_signedb 8 vt = true /\ (0 <= size < 4294967296)%Z /\ 6 <= len buf.
+Proof.
+  unfold r_map_begin. intros W E. need_inv buf 6 e_read_map E. inversion E; subst.
+  split; [reflexivity|]. split; [apply i8_range, wf_nth0, W|]. split; [apply i8_range, wf_nth1, W|]. split; [|assumption].
+  pose proof (unbe_take_lt 4 (drop 2 buf) (wf_drop 2 buf W)) as H. rewrite p256_4 in H.
+  rewrite drop_len in H by lia. lia.
+Qed.
+
+Definition post (ty id : Z) (r : res (ufield * N)) : Prop :=
+  match r with
+  | Ok (f, l) => canon f = true /\ uf_ty f = ty /\ uf_id f = id /\ l = len (enc_tree f)
+  | _ => True
+  end.
+
+Lemma elems_loop_post rd et size blen : forall lf cur pos i acc,
+  (forall sub id, wf sub -> in_signedb 16 id = true -> post et id (rd sub id)) ->
+  wf cur -> i <= size ->
+  match elems_loop rd lf blen cur pos i size acc with
+  | Ok (l, n) => exists l', l = rev acc ++ l' /\ canon_elems canon et i l' = true /\
+                            i + len l' = size /\ n = pos + len (concat (map enc_tree l'))
+  | _ => True
+  end.
+Proof.
+  induction lf as [|lf' IH]; intros cur pos i acc Hrd W Hi.
+  - cbn [elems_loop]. destruct (N.ltb_spec i size); [exact I|].
+    exists []. rewrite app_nil_r. cbn [canon_elems canon_pairs map concat]. change (len (@nil ufield)) with 0. change (len (@nil N)) with 0. repeat split; try reflexivity; lia.
+  - cbn [elems_loop]. destruct (N.ltb_spec i size) as [Hlt|Hge].
+    2:{ exists []. rewrite app_nil_r. cbn [canon_elems canon_pairs map concat]. change (len (@nil ufield)) with 0. change (len (@nil N)) with 0. repeat split; try reflexivity; lia. }
+    unfold slice_at. destruct (pos <=? blen); [|exact I]. cbn [bind].
+    pose proof (Hrd cur (int16_of i) W (int16_of_range i)) as Hp.
+    destruct (rd cur (int16_of i)) as [[x l]|e|w|]; cbn [bind post] in *; auto.
+    destruct Hp as (Hc & Hty & Hid & Hl).
+    specialize (IH (drop l cur) (pos + l) (i + 1) (x :: acc) Hrd (wf_drop l cur W) ltac:(lia)).
+    destruct (elems_loop rd lf' blen (drop l cur) (pos + l) (i + 1) size (x :: acc)) as [[xs n]|e|w|]; auto.
+    destruct IH as (l' & -> & Hc' & Hn & Hpos).
+    exists (x :: l'). cbn [rev canon_elems map concat]. rewrite <- app_assoc. cbn [app].
+    rewrite Hty, Hid, !Z.eqb_refl, Hc, Hc'. rewrite len_cons, len_app.
+    repeat split; try reflexivity; lia.
+Qed.
+
+Lemma pairs_loop_post rdk rdv kt vt size blen : forall lf cur pos i acc,
+  (forall sub id, wf sub -> in_signedb 16 id = true -> post kt id (rdk sub id)) ->
+  (forall sub id, wf sub -> in_signedb 16 id = true -> post vt id (rdv sub id)) ->
+  wf cur -> i <= size ->
+  match pairs_loop rdk rdv lf blen cur pos i size acc with
+  | Ok (l, n) => exists l', l = rev acc ++ l' /\ canon_pairs canon kt vt i l' = true /\
+                            2 * i + len l' = 2 * size /\ n = pos + len (concat (map enc_tree l'))
+  | _ => True
+  end.
+Proof.
+  induction lf as [|lf' IH]; intros cur pos i acc Hrk Hrv W Hi.
+  - cbn [pairs_loop]. destruct (N.ltb_spec i size); [exact I|].
+    exists []. rewrite app_nil_r. cbn [canon_elems canon_pairs map concat]. change (len (@nil ufield)) with 0. change (len (@nil N)) with 0. repeat split; try reflexivity; lia.
+  - cbn [pairs_loop]. destruct (N.ltb_spec i size) as [Hlt|Hge].
+    2:{ exists []. rewrite app_nil_r. cbn [canon_elems canon_pairs map concat]. change (len (@nil ufield)) with 0. change (len (@nil N)) with 0. repeat split; try reflexivity; lia. }
+    unfold slice_at. destruct (pos <=? blen); [|exact I]. cbn [bind].
+    pose proof (Hrk cur (int16_of i) W (int16_of_range i)) as Hp.
+    destruct (rdk cur (int16_of i)) as [[k l]|e|w|]; cbn [bind post] in *; auto.
+    destruct Hp as (Hc & Hty & Hid & Hl).
+    destruct (pos + l <=? blen); [|exact I]. cbn [bind].
+    pose proof (Hrv (drop l cur) (int16_of i) (wf_drop l cur W) (int16_of_range i)) as Hp2.
+    destruct (rdv (drop l cur) (int16_of i)) as [[v l2]|e|w|]; cbn [bind post] in *; auto.
+    destruct Hp2 as (Hc2 & Hty2 & Hid2 & Hl2).
+    specialize (IH (drop l2 (drop l cur)) (pos + l + l2) (i + 1) (v :: k :: acc) Hrk Hrv
+                   (wf_drop l2 _ (wf_drop l cur W)) ltac:(lia)).
+    destruct (pairs_loop rdk rdv lf' blen (drop l2 (drop l cur)) (pos + l + l2) (i + 1) size (v :: k :: acc))
+      as [[xs n]|e|w|]; auto.
+    destruct IH as (l' & -> & Hc' & Hn & Hpos).
+    exists (k :: v :: l'). cbn [rev canon_pairs map concat]. rewrite <- !app_assoc. cbn [app].
+    rewrite Hty, Hid, Hty2, Hid2, !Z.eqb_refl, Hc, Hc2, Hc'. rewrite !len_cons, !len_app.
+    repeat split; try reflexivity; lia.
+Qed.
+
+Lemma fields_loop_post rd blen : forall lf cur pos field acc,
+  (forall sub t id, wf sub -> in_signedb 16 id = true -> post t id (rd uf_zero sub t id)) ->
+  wf cur ->
+  match fields_loop true rd lf blen cur pos field acc with
+  | Ok (l, n) => exists l', l = rev acc ++ l' /\ forallb canon l' = true /\
+                            n = pos + len (concat (map enc_tree_field l')) + 1
+  | _ => True
+  end.
+Proof.
+  induction lf as [|lf' IH]; intros cur pos field acc Hrd W; [exact I|].
+  cbn [fields_loop].
+  unfold slice_at at 1. destruct (pos <=? blen); [|exact I]. cbn [bind].
+  destruct (r_field_begin cur) as [[[t fid] l]|e|w|] eqn:Efb; cbn [bind]; auto.
+  destruct (r_field_begin_inv cur t fid l W Efb) as [[-> ->]|(Hns & -> & Ht & Hid)].
+  - rewrite Z.eqb_refl. exists []. rewrite app_nil_r. repeat split; try reflexivity.
+    cbn [map concat]. change (len (@nil N)) with 0. lia.
+  - destruct (Z.eqb_spec t thrift_STOP) as [|_]; [contradiction|].
+    unfold slice_at. destruct (pos + 3 <=? blen); [|exact I]. cbn [bind].
+    pose proof (Hrd (drop 3 cur) t fid (wf_drop 3 cur W) Hid) as Hp.
+    destruct (rd uf_zero (drop 3 cur) t fid) as [[f l2]|e|w|]; cbn [bind post] in *; auto.
+    destruct Hp as (Hc & Hty & Hfid & Hl).
+    specialize (IH (drop l2 (drop 3 cur)) (pos + 3 + l2) f (f :: acc) Hrd (wf_drop l2 _ (wf_drop 3 cur W))).
+    destruct (fields_loop true rd lf' blen (drop l2 (drop 3 cur)) (pos + 3 + l2) f (f :: acc)) as [[xs n]|e|w|]; auto.
+    destruct IH as (l' & -> & Hc' & Hn).
+    exists (f :: l'). cbn [rev forallb]. rewrite <- app_assoc. cbn [app]. rewrite Hc, Hc'.
+    repeat split; try reflexivity.
+    rewrite concat_fields_cons, !len_app. unfold len at 1. rewrite length_enc_fb. lia.
+Qed.
+
+Lemma canon_leaf id ty v (body : bool) :
+  in_signedb 16 id = true -> canon (UF id ty 0 0 v) = (in_signedb 16 id && body)%bool -> body = true ->
+  canon (UF id ty 0 0 v) = true.
+Proof. intros H E B. now rewrite E, H, B. Qed.
+
+Lemma read_field_post : forall fuel buf ty id,
+  wf buf -> in_signedb 16 id = true -> post ty id (read_field true fuel uf_zero buf ty id).
+Proof.
+  induction fuel as [|fuel' IH]; intros buf ty id W Hid; [exact I|].
+  destruct (Z.eq_dec ty T_BOOL) as [->|N1].
+  { rewrite read_field_bool. destruct (r_bool buf) as [[v l]|e|w|] eqn:E; cbn [bind post]; auto.
+    pose proof (r_bool_inv buf v l E) as ->. cbn [uf_kt uf_vt uf_zero canon]. rewrite Hid. repeat split; reflexivity. }
+  destruct (Z.eq_dec ty T_BYTE) as [->|N2].
+  { rewrite read_field_byte. destruct (r_byte buf) as [[v l]|e|w|] eqn:E; cbn [bind post]; auto.
+    destruct (r_byte_inv buf v l W E) as [-> Hr]. cbn [uf_kt uf_vt uf_zero canon]. rewrite Hid, Hr. repeat split; reflexivity. }
+  destruct (Z.eq_dec ty T_I16) as [->|N3].
+  { rewrite read_field_i16. destruct (r_i16 buf) as [[v l]|e|w|] eqn:E; cbn [bind post]; auto.
+    destruct (r_i16_inv buf v l W E) as [-> Hr]. cbn [uf_kt uf_vt uf_zero canon]. rewrite Hid, Hr. repeat split; reflexivity. }
+  destruct (Z.eq_dec ty T_I32) as [->|N4].
+  { rewrite read_field_i32. destruct (r_i32 buf) as [[v l]|e|w|] eqn:E; cbn [bind post]; auto.
+    destruct (r_i32_inv buf v l W E) as (-> & Hr & _). cbn [uf_kt uf_vt uf_zero canon]. rewrite Hid, Hr. repeat split; reflexivity. }
+  destruct (Z.eq_dec ty T_I64) as [->|N5].
+  { rewrite read_field_i64. destruct (r_i64 buf) as [[v l]|e|w|] eqn:E; cbn [bind post]; auto.
+    destruct (r_i64_inv buf v l W E) as [-> Hr]. cbn [uf_kt uf_vt uf_zero canon]. rewrite Hid, Hr. repeat split; reflexivity. }
+  destruct (Z.eq_dec ty T_DOUBLE) as [->|N6].
+  { rewrite read_field_double. destruct (r_double buf) as [[v l]|e|w|] eqn:E; cbn [bind post]; auto.
+    destruct (r_double_inv buf v l W E) as [-> Hr]. cbn [uf_kt uf_vt uf_zero canon]. rewrite Hid, Hr. repeat split; reflexivity. }
+  destruct (Z.eq_dec ty T_STRING) as [->|N7].
+  { rewrite read_field_string. destruct (r_string buf) as [[v l]|e|w|] eqn:E; cbn [bind post]; auto.
+    destruct (r_string_inv buf v l W E) as [-> Hr]. cbn [uf_kt uf_vt uf_zero canon]. rewrite Hid.
+    apply andb_true_iff in Hr as [H1 H2]. rewrite H1, H2. repeat split; try reflexivity.
+    cbn [enc_tree enc]. rewrite len_app, be_len. reflexivity. }
+  destruct (Z.eq_dec ty T_SET) as [->|N8].
+  { rewrite read_field_set. destruct (r_set_begin buf) as [[[et size] l]|e|w|] eqn:E; cbn [bind post]; auto.
+    destruct (r_list_begin_gen_inv _ buf et size l W E) as (-> & Het & Hsz & Hl).
+    destruct (Z.ltb_spec size 0) as [|_]; [lia|].
+    pose proof (elems_loop_post (fun sub i => read_field true fuel' uf_zero sub et i) et (Z.to_N size) (len buf)
+                  (S (length buf)) (drop 5 buf) 5 0 [] (fun sub i Ws Hi => IH sub et i Ws Hi)
+                  (wf_drop 5 buf W) ltac:(lia)) as Hp.
+    destruct (elems_loop _ _ _ _ _ _ _ _) as [[xs n]|e|w|]; cbn [bind post]; auto.
+    destruct Hp as (l' & -> & Hc & Hn & ->). cbn [rev app uf_kt uf_zero uf_ty uf_id].
+    rewrite canon_set, enc_tree_set, Hid, Het, Hc, len_app.
+    replace (len l' <? two32) with true by (symmetry; apply N.ltb_lt; unfold two32; lia).
+    repeat split; reflexivity. }
+  destruct (Z.eq_dec ty T_LIST) as [->|N9].
+  { rewrite read_field_list. destruct (r_list_begin buf) as [[[et size] l]|e|w|] eqn:E; cbn [bind post]; auto.
+    destruct (r_list_begin_gen_inv _ buf et size l W E) as (-> & Het & Hsz & Hl).
+    destruct (Z.ltb_spec size 0) as [|_]; [lia|].
+    pose proof (elems_loop_post (fun sub i => read_field true fuel' uf_zero sub et i) et (Z.to_N size) (len buf)
+                  (S (length buf)) (drop 5 buf) 5 0 [] (fun sub i Ws Hi => IH sub et i Ws Hi)
+                  (wf_drop 5 buf W) ltac:(lia)) as Hp.
+    destruct (elems_loop _ _ _ _ _ _ _ _) as [[xs n]|e|w|]; cbn [bind post]; auto.
+    destruct Hp as (l' & -> & Hc & Hn & ->). cbn [rev app uf_kt uf_zero uf_ty uf_id].
+    rewrite canon_list, enc_tree_list, Hid, Het, Hc, len_app.
+    replace (len l' <? two32) with true by (symmetry; apply N.ltb_lt; unfold two32; lia).
+    repeat split; reflexivity. }
+  destruct (Z.eq_dec ty T_MAP) as [->|N10].
+  { rewrite read_field_map. destruct (r_map_begin buf) as [[[[kt vt] size] l]|e|w|] eqn:E; cbn [bind post]; auto.
+    destruct (r_map_begin_inv buf kt vt size l W E) as (-> & Hkt & Hvt & Hsz & Hl).
+    destruct (Z.ltb_spec (size * 2) 0) as [|_]; [lia|].
+    pose proof (pairs_loop_post (fun sub i => read_field true fuel' uf_zero sub kt i)
+                  (fun sub i => read_field true fuel' uf_zero sub vt i) kt vt (Z.to_N size) (len buf)
+                  (S (length buf)) (drop 6 buf) 6 0 [] (fun sub i Ws Hi => IH sub kt i Ws Hi)
+                  (fun sub i Ws Hi => IH sub vt i Ws Hi) (wf_drop 6 buf W) ltac:(lia)) as Hp.
+    destruct (pairs_loop _ _ _ _ _ _ _ _ _) as [[xs n]|e|w|]; cbn [bind post]; auto.
+    destruct Hp as (l' & -> & Hc & Hn & ->). cbn [rev app uf_ty uf_id].
+    rewrite canon_map, enc_tree_map, Hid, Hkt, Hvt, Hc, len_app.
+    assert (Hhalf : len l' / 2 = Z.to_N size).
+    { replace (len l') with (Z.to_N size * 2) by lia. apply N.div_mul. lia. }
+    rewrite Hhalf.
+    replace (Z.to_N size <? two32) with true by (symmetry; apply N.ltb_lt; unfold two32; lia).
+    repeat split; reflexivity. }
+  destruct (Z.eq_dec ty T_STRUCT) as [->|N11].
+  { rewrite read_field_struct.
+    pose proof (fields_loop_post (read_field true fuel') (len buf) (S (length buf)) buf 0 uf_zero []
+                  (fun sub t i Ws Hi => IH sub t i Ws Hi) W) as Hp.
+    destruct (fields_loop _ _ _ _ _ _ _ _) as [[xs n]|e|w|]; cbn [bind post]; auto.
+    destruct Hp as (l' & -> & Hc & ->). cbn [rev app uf_kt uf_vt uf_zero uf_ty uf_id].
+    rewrite canon_struct, enc_tree_struct, Hid, Hc, len_app.
+    repeat split; reflexivity. }
+  rewrite read_field_other by assumption. exact I.
+Qed.
+
+Lemma convert_loop_post fuel blen : forall lf cur pos acc,
+  wf cur ->
+  match convert_loop true lf fuel blen cur pos acc with
+  | Ok t => exists l', t = rev acc ++ l' /\ forallb canon l' = true /\
+                       blen = pos + len (concat (map enc_tree_field l'))
+  | _ => True
+  end.
+Proof.
+  induction lf as [|lf' IH]; intros cur pos acc W; [exact I|].
+  cbn [convert_loop]. destruct (N.eqb_spec pos blen) as [->|Hne].
+  - exists []. rewrite app_nil_r. repeat split; try reflexivity. cbn [map concat]. change (len (@nil N)) with 0. lia.
+  - unfold slice_at at 1. destruct (pos <=? blen); [|exact I]. cbn [bind].
+    destruct (r_field_begin cur) as [[[t fid] l]|e|w|] eqn:Efb; cbn [bind]; auto.
+    destruct (r_field_begin_inv cur t fid l W Efb) as [[-> ->]|(Hns & -> & Ht & Hid)].
+    + (* a STOP byte at the top level: readUnknownField rejects type 0 *)
+      unfold slice_at. destruct (pos + 1 <=? blen); [|exact I]. cbn [bind].
+      destruct fuel as [|fuel']; [exact I|].
+      rewrite read_field_other by (change thrift_STOP with 0%Z; discriminate). exact I.
+    + unfold slice_at. destruct (pos + 3 <=? blen); [|exact I]. cbn [bind].
+      pose proof (read_field_post fuel (drop 3 cur) t fid (wf_drop 3 cur W) Hid) as Hp.
+      destruct (read_field true fuel uf_zero (drop 3 cur) t fid) as [[f l2]|e|w|]; cbn [bind post] in *; auto.
+      destruct Hp as (Hc & Hty & Hfid & Hl).
+      specialize (IH (drop l2 (drop 3 cur)) (pos + 3 + l2) (f :: acc) (wf_drop l2 _ (wf_drop 3 cur W))).
+      destruct (convert_loop true lf' fuel blen (drop l2 (drop 3 cur)) (pos + 3 + l2) (f :: acc)) as [ts|e|w|]; auto.
+      destruct IH as (l' & -> & Hc' & Hn).
+      exists (f :: l'). cbn [rev forallb]. rewrite <- app_assoc. cbn [app]. rewrite Hc, Hc'.
+      repeat split; try reflexivity.
+      rewrite concat_fields_cons, !len_app. unfold len at 1. rewrite length_enc_fb. lia.
+Qed.
+
+(* whatever bytes were accepted: the tree is canonical and denotes exactly as many bytes as were given *)
+Lemma convert_canonical : forall b t, wf b -> convert b = Ok t ->
+  canon_fields t = true /\ t <> [] /\ len (enc_tree_fields t) = len b.
+Proof.
+  intros b t W E. unfold convert, convert_gen in E.
+  destruct (N.eqb_spec (len b) 0) as [|Hne]; [discriminate|].
+  pose proof (convert_loop_post (S (length b)) (len b) (S (length b)) b 0 [] W) as Hp.
+  rewrite E in Hp. destruct Hp as (l' & -> & Hc & Hn). cbn [rev app] in *.
+  unfold canon_fields, enc_tree_fields. split; [exact Hc|]. split; [|lia].
+  intros ->. cbn [map concat] in Hn. change (len (@nil N)) with 0 in Hn. lia.
+Qed.
+
+(* hence every successful conversion survives write-then-convert, with length = byte count of the input *)
+Lemma convert_then_write : forall b t, wf b -> convert b = Ok t ->
+  let w := enc_tree_fields t in
+  len w = len b /\ fields_len t = Ok (len b) /\
+  (forall buf, len b <= len buf -> write_fields buf t = Ok (w ++ drop (len b) buf, len b)) /\
+  convert w = Ok t.
+Proof.
+  intros b t W E w. destruct (convert_canonical b t W E) as (Hc & Hne & Hl).
+  destruct (tree_bytes_tree t Hne Hc) as (H1 & H2 & H3). fold w in H1, H2, H3, Hl.
+  rewrite Hl in H1, H2. auto.
+Qed.
